@@ -31,6 +31,9 @@ POLL_NS = 10_000_000  # receive_async sleeps 0.01 s between polls
 PLAIN = "abcdefghijklmnopqrstuvwxyz ABC_-.,;"
 ENC = ["~", "~", "~~", "0", "1", "5", "9", "12", '"', "\\", "\\\\", "{", "}", ":", ",", "@", "[", "]", "\n", "\t", " ",
        "é", "€", "😀", " ", "\x00", "\x7f", "e", "x1b", "u001b", "n", "hash", "data", "id", "#"]
+# lone surrogates (what a file name decoded with surrogateescape contains); never a high one directly before a low one,
+# which JSON itself reads back as one astral character
+SURR = ["\udc80", "\udcff", "\ud800", "x\udfffy", "\udc80\udc81"]
 ESCY = ["\\e", "\x1b", "\\x1b", "\x1b[0m", "x\\e[1m", "~a1~", "~a4~", "~14~", "~ 5~", "~~a1~~", '"@":', '"__class__":', "\\u001b"]
 
 
@@ -46,8 +49,10 @@ def gen_string(rng: random.Random, tricky: float) -> str:
             parts.append(rng.choice(ENC))
         elif k < 0.5:
             parts.append(rng.choice(ENC + list(PLAIN)) * rng.choice([4, 5, 6, 11, 40]))  # runs >= 4
-        elif k < 0.65:
+        elif k < 0.62:
             parts.append(rng.choice(ESCY))
+        elif k < 0.65:
+            parts.append(rng.choice(SURR) + "|")
         elif k < 0.8:
             parts.append("".join(rng.choice(PLAIN) for _ in range(rng.choice([1, 2, 5]))))
         else:
